@@ -522,6 +522,14 @@ def check_lse(line, meta, outs, stats):
 
 # ----------------------------------------------------------------------------- run
 
+def guarded(fn, line, hout, *args):
+    """a malformed / short / non-numeric output is a finding about this case (with its input), never a crash of the check"""
+    try:
+        return fn(*args)
+    except Exception as e:
+        return [("prop", "unreadable-result", "results could not be evaluated (%s: %s); output: %s" % (type(e).__name__, str(e)[:80], hout[:120]))]
+
+
 def corpus_cases():
     out = []
     p = vlib.VERIF / "corpus" / "C15" / "cases.txt"
@@ -582,13 +590,13 @@ def run(ctx):
         hist["%s:%s" % (op, meta.get("style"))] = hist.get("%s:%s" % (op, meta.get("style")), 0) + 1
         distinct.add(line)
         if op == "ld":
-            probs = check_ld(line, meta, hout[ent["h"]], dout[ent["d"]], stats)
+            probs = guarded(check_ld, line, hout[ent["h"]], line, meta, hout[ent["h"]], dout[ent["d"]], stats)
             t = line.split()
             if int(t[1]) > 1:
                 nontrivial.add(line)
             branch["direct"] = branch.get("direct", 0) + 1
         elif op == "uvr":
-            probs = check_uvr(line, meta, hout[ent["h"]], dout[ent["d"]], stats)
+            probs = guarded(check_uvr, line, hout[ent["h"]], line, meta, hout[ent["h"]], dout[ent["d"]], stats)
             t = line.split()
             nb, bs, enc = int(t[1]), int(t[2]), int(t[5])
             if nb * bs > 1:
@@ -607,7 +615,7 @@ def run(ctx):
                     "hshift": hout[ent["hshift"]], "xshift": ent["xshift"]}
             if "hmat" in ent:
                 outs["hmat"] = hout[ent["hmat"]]
-            probs = check_lse(line, meta, outs, stats)
+            probs = guarded(check_lse, line, hout[ent["h"]], line, meta, outs, stats)
             t = line.split()
             if int(t[1]) > 1:
                 nontrivial.add(line)
